@@ -167,6 +167,7 @@ INVARIANT TypeOK
 
 # (NTask, NKey, maxsize (-1 = None), CallsPer, FnSusp)
 TIERS = {
+    "mini": [(2, 2, 1, 2, 1), (2, 2, -1, 1, 1)],
     "quick": [(2, 2, 1, 2, 1), (2, 2, -1, 2, 1), (3, 2, 1, 1, 1), (2, 3, 2, 2, 1), (2, 2, 0, 1, 1)],
     "thorough": [(3, 2, 1, 2, 2), (3, 3, 2, 2, 1), (2, 3, 2, 3, 2), (3, 2, -1, 2, 1), (4, 2, 1, 1, 1),
                  (4, 3, 2, 1, 1), (2, 2, 0, 2, 2), (3, 3, 1, 2, 1)],
@@ -262,12 +263,12 @@ def check(prop, tier, seed, into=None):
         drifted = [r for r in results if r["drift"]]
         clean = [r for r in results if not r["drift"]]
         tot["drift"] += len(drifted)
-        cap = 2500 if tier == "quick" else 40000
+        cap = 800 if tier == "mini" else 2500 if tier == "quick" else 40000
         alltraces += drifted + (clean if len(clean) <= cap else rnd.sample(clean, cap))
         for r in results:
             if not r["acct_ok"]:
                 v.violation("C11/lru_cache/foreign-suspension", {"engine": "lruconc", "path": r["path"], "cfg": r["cfg"]})
-    nrand = 1500 if tier == "quick" else 20000
+    nrand = 300 if tier == "mini" else 1500 if tier == "quick" else 20000
     jobs = [(seed * 104729 + i, rnd.choice([2, 3, 4, 5]), rnd.choice([1, 2, 3, 4]), rnd.choice([-1, 0, 1, 2, 3]), rnd.choice([1, 2, 3]))
             for i in range(nrand)]
     with mp.Pool(min(16, os.cpu_count() or 4)) as pool:
